@@ -55,9 +55,35 @@ def thaw(v):
     return v
 
 
+class Sym:
+    """symbolic value of an attribute of self that is never assigned on the
+    path (only produced by Interp(symbolic=True)): equal to itself, unknown
+    against everything else"""
+    __slots__ = ('key',)
+
+    def __init__(self, key):
+        self.key = key
+
+    def __eq__(self, other):
+        return isinstance(other, Sym) and other.key == self.key
+
+    def __ne__(self, other):
+        return not self.__eq__(other)
+
+    def __hash__(self):
+        return hash(('Sym', self.key))
+
+    def __repr__(self):
+        return '<%s>' % self.key
+
+
+def unsym(v):
+    return UNK if isinstance(v, Sym) else v
+
+
 def truth(v):
     """three-valued truth: True / False / None (unknown)"""
-    if v is UNK:
+    if v is UNK or isinstance(v, Sym):
         return None
     if isinstance(v, (list, tuple, dict)) and any(x is UNK for x in
                                                    (v.values() if isinstance(v, dict) else v)):
@@ -104,7 +130,7 @@ class Interp:
     """
 
     def __init__(self, prog, cls, track=(), inputs=None, depth=3, observe=None,
-                 max_states=50000):
+                 max_states=50000, symbolic=False):
         self.prog    = prog
         self.cls     = cls
         self.track   = set(track)
@@ -115,6 +141,8 @@ class Interp:
         self.states  = 0
         self._mw     = {}
         self.unresolved = 0
+        self.symbolic = symbolic
+        self._argonly = {}
 
     # --------------------------------------------------------------------------
     def may_write(self, f, depth=None, _seen=None):
@@ -139,6 +167,30 @@ class Interp:
                     break
         self._mw[k] = res
         return res
+
+    def arg_only(self, f, test):
+        """the test reads nothing but parameters of f (and locals computed
+        from them): its outcome is chosen by the caller's arguments"""
+        k = (id(f.node), id(test))
+        if k not in self._argonly:
+            from ..flow import Deps, assigned_names
+            d = self._argonly.get(id(f.node))
+            if d is None:
+                d = self._argonly[id(f.node)] = (Deps(f.node, nested=False),
+                                                 assigned_names(f.node))
+            deps, local = d
+            params = set(f.params) - {'self', 'cls'}
+            ok = True
+            for x in deps.expr_depends(test):
+                if x.startswith('self.') or x.startswith('ret:') or \
+                        x in ('self', 'cls'):
+                    ok = False
+                elif x.isidentifier() and x not in params and \
+                        x not in local and x not in _BUILTINS and \
+                        x not in ('isinstance', 'list', 'dict', 'len'):
+                    ok = False
+            self._argonly[k] = ok
+        return self._argonly[k]
 
     def _callee(self, f, call):
         fn = call.func
@@ -170,7 +222,11 @@ class Interp:
             if isinstance(e, ast.Name) and (e.id in f.params or
                                             e.id in ('self', 'cls')):
                 return UNK
-            return self.prog.fold(f.module, e, f.cls)
+            v = self.prog.fold(f.module, e, f.cls)
+            if v is UNK and self.symbolic and k is not None and \
+                    k.startswith('self.') and k.count('.') == 1:
+                return Sym(k)
+            return v
         if isinstance(e, (ast.Tuple, ast.List)):
             vals = [self.ev(f, x, env) for x in e.elts
                     if not isinstance(x, ast.Starred)]
@@ -229,9 +285,11 @@ class Interp:
                 return a if (a is not UNK and a == b) else UNK
             return self.ev(f, e.body if t else e.orelse, env)
         if isinstance(e, ast.BinOp):
-            l, r = self.ev(f, e.left, env), self.ev(f, e.right, env)
+            l, r = unsym(self.ev(f, e.left, env)), \
+                unsym(self.ev(f, e.right, env))
             if l is UNK or r is UNK or (isinstance(r, tuple) and
-                                        any(x is UNK for x in r)):
+                                        any(x is UNK or isinstance(x, Sym)
+                                            for x in r)):
                 return UNK
             try:
                 if isinstance(e.op, ast.Mod):
@@ -252,7 +310,7 @@ class Interp:
                     out += str(p.value)
                 elif isinstance(p, ast.FormattedValue) and p.format_spec is None \
                         and p.conversion == -1:
-                    v = self.ev(f, p.value, env)
+                    v = unsym(self.ev(f, p.value, env))
                     if v is UNK:
                         return UNK
                     out += str(v)
@@ -275,6 +333,19 @@ class Interp:
 
     @staticmethod
     def _cmp(op, l, r):
+        if isinstance(l, Sym) or isinstance(r, Sym):
+            # a symbolic value is only known to equal itself
+            if l is UNK or r is UNK:
+                return UNK
+            if isinstance(op, (ast.Eq, ast.Is)):
+                return True if l == r else UNK
+            if isinstance(op, (ast.NotEq, ast.IsNot)):
+                return False if l == r else UNK
+            if isinstance(op, (ast.In, ast.NotIn)) and \
+                    isinstance(r, (list, tuple, set)):
+                if any(x is not UNK and x == l for x in r):
+                    return isinstance(op, ast.In)
+            return UNK
         if isinstance(op, (ast.Is, ast.IsNot)):
             if l is UNK or r is UNK:
                 return UNK
@@ -291,7 +362,8 @@ class Interp:
                     hit = l in r
                 else:
                     hit = any(x is not UNK and x == l for x in r)
-                    if not hit and any(x is UNK for x in r):
+                    if not hit and any(x is UNK or isinstance(x, Sym)
+                                       for x in r):
                         return UNK
             except Exception:
                 return UNK
@@ -338,7 +410,7 @@ class Interp:
             return UNK
         if isinstance(fn, ast.Name) and fn.id in _BUILTINS and \
                 not c.keywords:
-            args = [self.ev(f, a, env) for a in c.args]
+            args = [unsym(self.ev(f, a, env)) for a in c.args]
             if any(a is UNK for a in args):
                 return UNK
             try:
@@ -464,7 +536,8 @@ class Interp:
         return out
 
     def _inline(self, f, call, g, env, depth):
-        selfenv = {k: v for k, v in env.items() if k.startswith('self.')}
+        selfenv = {k: v for k, v in env.items()
+                   if k.startswith('self.') or k.startswith('@')}
         if depth <= 0:
             for k in self.track:
                 env = dict(env)
@@ -486,13 +559,14 @@ class Interp:
         for kw in call.keywords:
             if kw.arg in params:
                 cenv[kw.arg] = self.ev(f, kw.value, env)
-        exits = self.run(g, cenv, depth=depth - 1)
+        exits = self.run(g, cenv, depth=depth - 1, inlined=True)
         out = []
         for fe in exits:
             ce = dict(fe)
-            e2 = {k: v for k, v in env.items() if not k.startswith('self.')}
+            e2 = {k: v for k, v in env.items()
+                  if not (k.startswith('self.') or k.startswith('@'))}
             e2.update({k: thaw(v) for k, v in ce.items()
-                       if k.startswith('self.')})
+                       if k.startswith('self.') or k.startswith('@')})
             out.append(e2)
         if not exits:
             # callee never returns normally on this input: no continuation
@@ -500,7 +574,7 @@ class Interp:
         return out
 
     # --------------------------------------------------------------------------
-    def run(self, f, env, depth=None, start=None):
+    def run(self, f, env, depth=None, start=None, inlined=False):
         """frozen environments at the normal exit of f"""
         depth = self.depth if depth is None else depth
         g = cfg_of(f)
@@ -529,6 +603,12 @@ class Interp:
                 t = truth(self.ev(f, node.ast, env))
                 if t is not None:
                     allowed = 'T' if t else 'F'
+                elif not (inlined and self.arg_only(f, node.ast)) and \
+                        not env.get('@c'):
+                    # path marker: an undecided test that is not a function
+                    # of the arguments of an inlined call was passed
+                    env['@c'] = True
+                    fe = self._fz(env)
             observed = False
             cache = {}
             for e in g.succ[nid]:
@@ -1145,18 +1225,36 @@ def r14_3(prog, rep, rid='R14.3'):
         if node is None:
             raise AnalysisError('R14.3: no CFG node for %s in %s'
                                 % (short(stmt), f.where))
-        ip = Interp(prog, agent, track=[CAUSE])
+        ip = Interp(prog, agent, track=[CAUSE], symbolic=True)
         exits = ip.run(f, {}, start=node.id)
         rep.stat('interp_states', ip.states)
-        vals, who = set(), set()
+        want = state_of(lit)
+
+        def keeps(v):
+            return v is UNK or v == lit or UNK in state_of(v) or \
+                bool(state_of(v) & want)
+
+        allv, who_all = set(), set()
+        killv, who_kill = set(), set()
         for fe in exits:
             d = dict(fe)
-            vals.add(thaw(d.get(CAUSE, UNK)))
-            who.add(d.get(CAUSE + '@', '?'))
-        want = state_of(lit)
-        survived = (not exits) or UNK in want or any(
-            v is UNK or v == lit or UNK in state_of(v) or
-            (state_of(v) & want) for v in vals)
+            v = unsym(thaw(d.get(CAUSE, UNK)))
+            allv.add(v)
+            who_all.add(d.get(CAUSE + '@', '?'))
+            # a path all of whose tests were decided, or are functions of
+            # the arguments the assigning method passes to its callee
+            if not d.get('@c') and not keeps(v):
+                killv.add(v)
+                who_kill.add(d.get(CAUSE + '@', '?'))
+        every = bool(exits) and UNK not in want and \
+            not any(keeps(v) for v in allv)
+        survived = not every and not (killv and UNK not in want)
+        vals, who = (allv, who_all) if every else (killv or allv,
+                                                   who_kill or who_all)
+        how = 'on every path to its return' if every else \
+            'on a path to its return whose branch conditions are all ' \
+            'decided by the values at hand (or by the arguments of the ' \
+            'call it makes)'
         got = sorted({x for v in vals if v is not UNK for x in state_of(v)
                       if x is not UNK})
         rep.check(survived, rid, f,
@@ -1164,10 +1262,10 @@ def r14_3(prog, rep, rid='R14.3'):
                   '(or is replaced by one with the same final state)'
                   % (lit, f.qual), construct=stmt,
                   message='%s assigns the cause %r (final state %s) and then, '
-                  'on every path to its return, the cause is overwritten (%s; '
-                  'final value %s): Agent_0.finalize never sees %r and '
+                  '%s, the cause is overwritten (%s; '
+                  'final value %s): Agent_0.finalize does not see %r and '
                   'reports %s instead'
-                  % (f.qual, lit, '/'.join(sorted(map(str, want))),
+                  % (f.qual, lit, '/'.join(sorted(map(str, want))), how,
                      '; '.join(sorted(who)),
                      '/'.join(repr(v) for v in sorted(vals, key=repr)), lit,
                      '/'.join(got)),
@@ -1783,6 +1881,17 @@ MUTATIONS = [
     dict(name='R14.3 stop() takes a cause, lifetime check still uses the default', rules=('R14.3',), edits=[
         (_A, "    def stop(self):\n\n        self._log.info('stop agent')\n", "    def stop(self, cause='cancel'):\n\n        self._log.info('stop agent')\n"),
         (_A, "        if self._final_cause is None:\n            self._final_cause = 'cancel'\n", "        self._final_cause = cause\n")]),
+    dict(name='R14.3 seed C14-b: lifetime check shuts down through the cancel handler', rules=('R14.3',), edits=[
+        (_A, "                self._final_cause = 'timeout'\n                self.stop()\n",
+             "                self._final_cause = 'timeout'\n                self._ctrl_cancel_pilots({'cmd': 'cancel_pilots',\n                                          'arg': {'uids': [self._pid]}})\n")]),
+    dict(name='R14.3 cancel message built in a local first', rules=('R14.3',), edits=[
+        (_A, "                self._final_cause = 'timeout'\n                self.stop()\n",
+             "                self._final_cause = 'timeout'\n                uids = [self._pid]\n                req  = {'cmd': 'cancel_pilots', 'arg': {'uids': uids}}\n                self._ctrl_cancel_pilots(req)\n")]),
+    dict(name='R14.3 shutdown helper overwrites the cause under a flag argument', rules=('R14.3',), edits=[
+        (_A, "                self._final_cause = 'timeout'\n                self.stop()\n",
+             "                self._final_cause = 'timeout'\n                self._shutdown(notify=self._cfg.get('notify', True))\n"),
+        (_A, "    def _ctrl_cancel_pilots(self, msg):\n",
+             "    def _shutdown(self, notify):\n        if notify:\n            self._final_cause = 'cancel'\n            self.publish(rpc.CONTROL_PUBSUB, {'cmd': 'terminate', 'arg': None})\n        self.stop()\n\n    def _ctrl_cancel_pilots(self, msg):\n")]),
     dict(name='R14.4 timeout mapped to CANCELED', rules=('R14.4',), edits=[
         (_A, "        if   self._final_cause == 'timeout'  : state = rps.DONE",
              "        if   self._final_cause == 'timeout'  : state = rps.CANCELED")]),
@@ -1833,6 +1942,19 @@ SILENT = [
         (_A, "        if self._final_cause is None:\n            self._final_cause = 'cancel'\n", "        self._final_cause = cause\n"),
         (_A, "                self._final_cause = 'timeout'\n                self.stop()\n",
              "                self._final_cause = 'timeout'\n                self.stop(cause='timeout')\n")]),
+    dict(name='shutdown helper called with a constant flag that skips the overwrite', edits=[
+        (_A, "                self._final_cause = 'timeout'\n                self.stop()\n",
+             "                self._final_cause = 'timeout'\n                self._shutdown(notify=False)\n"),
+        (_A, "    def _ctrl_cancel_pilots(self, msg):\n",
+             "    def _shutdown(self, notify):\n        if notify:\n            self._final_cause = 'cancel'\n            self.publish(rpc.CONTROL_PUBSUB, {'cmd': 'terminate', 'arg': None})\n        self.stop()\n\n    def _ctrl_cancel_pilots(self, msg):\n")]),
+    dict(name='lifetime check sends the terminate command itself, keeps its cause', edits=[
+        (_A, "                self._final_cause = 'timeout'\n                self.stop()\n",
+             "                self._final_cause = 'timeout'\n                self.publish(rpc.CONTROL_PUBSUB, {'cmd' : 'terminate',\n                                                  'arg' : None})\n                self.stop()\n")]),
+    dict(name='helper overwrites the cause only when agent state says so (not decided)', edits=[
+        (_A, "                self._final_cause = 'timeout'\n                self.stop()\n",
+             "                self._final_cause = 'timeout'\n                self._shutdown()\n"),
+        (_A, "    def _ctrl_cancel_pilots(self, msg):\n",
+             "    def _shutdown(self):\n        if self._service_uids_running and self._final_cause is None:\n            self._final_cause = 'cancel'\n        self.stop()\n\n    def _ctrl_cancel_pilots(self, msg):\n")]),
     dict(name='stop() records another cause with the same final state', edits=[
         (_A, "        if self._final_cause is None:\n            self._final_cause = 'cancel'\n", "        if self._final_cause is None:\n            self._final_cause = 'sys.exit'\n")]),
     dict(name='cause table as dict lookup', edits=[
